@@ -74,6 +74,19 @@ claim("C07", "model_checking", "SEQ+SCHED+FAULT", "BFS over cross-process histor
       "Histories of new/write/read/lock/unlock/take_ownership/free over 2 names, 3 sizes, 3 handles in 2 forked processes (same bytes, sizes, lock as one mutex, names gone after owner free, fresh zero-filled "
       "segment afterwards); all interleavings of concurrent lockers and of concurrent first-time creators; SIGKILL before/after every IPC call followed by the documented clean-up.", IPC_NOTE, "5 C07")
 
+claim("C18", "fault_enumeration", "FAULT", "exhaustive single-fault enumeration: every allocation index k of every scenario fails (once / from k on) in a forked ASan child",
+      "13 scenarios across all allocating modules (+ general rwlock and sim atomic builds); for each, every allocation index and both failure modes are executed; the child must exit normally, the block "
+      "ledger must balance after the scenario's own clean-up, pre-existing objects must answer as before, no IPC name may remain.",
+      "trusted: gcc ASan/UBSan, the public allocator-table API as injection seam. The scenarios are representative call sequences, not all call sequences.", "5 C18")
+claim("C19", "fault_enumeration", "ENV", "exhaustive enumeration of interruption points: EINTR at every k-th (thorough: every pair of) blocking system call invocation per scenario",
+      "sleep on a virtual clock, semaphore acquire (unit present / arriving later), shm lock, named IPC open/create, TCP and UDP exchanges with time-outs on loopback: EINTR is injected with each call's real "
+      "convention at every invocation index; the API-visible outcome must equal the run without injection; a 10 s watchdog turns a call that never returns into a violation.",
+      "trusted: the Linux convention table for interrupted calls (clock_nanosleep returns the code). Asynchronous signal timing itself is not enumerable; the interruption points are.", "5 C19")
+claim("C20", "fault_enumeration", "SEQ+ENV", "exhaustive enumeration of cross-module programs up to a depth and of every single injected system-call failure, with resource ledgers",
+      "Every sequence of up to 2 (3) steps out of 21 create-use-free / failing steps across all modules, each in a forked ASan child, plus every system-call invocation of every single step forced to fail; "
+      "allocator, descriptor, shared-mapping, IPC-name, pthread-object and dlopen ledgers must return to their initial state and no descriptor may be closed twice.",
+      "trusted: /proc/self/fd, link-time interposition of the system calls, gcc ASan.", "5 C20")
+
 PENDING_REASON = "engine for this property is not finished in the committed tree yet (see DESIGN.md section 9); not served by a weaker technique meanwhile"
 
 
